@@ -253,6 +253,82 @@ theorem g_changeSet (S : RouterG O) (L : List Route) (added updated : List Route
   have h2 := g_insertAll E OL hT updated (fun r hr => hg r (List.mem_append_left _ hr)) _ _ h1 hs.1
   exact g_insertAll E OL hT added (fun r hr => hg r (List.mem_append_right _ hr)) _ _ h2 hs.2
 
+/-! ### cache -/
+
+omit E hT in
+theorem cacheLoop_repr (L : List Route) (fuel : Nat) : ∀ (prev : Int) (level retry : Nat) (m : O.M),
+    OL.Repr m L → OL.Repr (RouterG.cacheLoop O fuel prev level retry m).1 L := by
+  induction fuel with
+  | zero => intro prev level retry m h; exact h
+  | succ fuel ih =>
+    intro prev level retry m h
+    unfold RouterG.cacheLoop
+    by_cases hp : prev > 0
+    · have hr := OL.repr_cache m L prev.toNat level h
+      simp only [hp, if_true]
+      split
+      · split
+        · exact hr
+        · exact ih _ _ _ _ hr
+      · exact ih _ _ _ _ hr
+    · simp only [hp, if_false]; exact h
+
+omit E hT in
+/-- `Router::cache` changes nothing the representation relation can see. -/
+theorem g_cache (S : RouterG O) (L : List Route) (limit : Option Nat) (h : RReprG OL S L) :
+    RReprG OL (RouterG.cache O limit S) L :=
+  ⟨cacheLoop_repr OL L _ _ _ _ _ h.matcher, h.ids, h.keyed, h.perm⟩
+
+omit E OL hT in
+theorem asI64_lt (n : Nat) : RouterG.asI64 n < 2 ^ 63 := by
+  unfold RouterG.asI64
+  have : n % 2 ^ 64 < 2 ^ 64 := Nat.mod_lt _ (by decide)
+  split <;> omega
+
+omit E OL hT in
+theorem asI64_of_lt (n : Nat) (h : n < 2 ^ 63) : RouterG.asI64 n = n := by
+  unfold RouterG.asI64
+  have : n % 2 ^ 64 = n := Nat.mod_eq_of_lt (by omega)
+  rw [this]; simp [h]
+
+omit E hT in
+include OL in
+/-- **The `while prev_cache_limit > 0` loop terminates**: every iteration either lowers the budget
+(a matcher's `cache` never returns more than it got) or uses up one of the six retries, so
+`prev + 6` iterations suffice. -/
+theorem cacheLoop_terminates (fuel : Nat) : ∀ (prev : Int) (level retry : Nat) (m : O.M),
+    prev < 2 ^ 63 → retry ≤ 5 → prev.toNat + (5 - retry) < fuel →
+    (RouterG.cacheLoop O fuel prev level retry m).2.2 = false := by
+  induction fuel with
+  | zero => intro prev level retry m _ _ hf; omega
+  | succ fuel ih =>
+    intro prev level retry m hlt hr hf
+    unfold RouterG.cacheLoop
+    by_cases hp : prev > 0
+    · simp only [hp, if_true]
+      have hle := OL.cache_le m prev.toNat level
+      have hn : (O.cache prev.toNat level m).2 < 2 ^ 63 := by omega
+      have hnext : RouterG.asI64 (O.cache prev.toNat level m).2 = ((O.cache prev.toNat level m).2 : Int) :=
+        asI64_of_lt _ hn
+      rw [hnext]
+      split
+      · rename_i heq
+        split
+        · rfl
+        · rename_i hretry
+          apply ih
+          · omega
+          · omega
+          · have : ((O.cache prev.toNat level m).2 : Int) = prev := by simpa using heq
+            omega
+      · rename_i hne
+        apply ih
+        · omega
+        · exact hr
+        · have : ((O.cache prev.toNat level m).2 : Int) ≠ prev := by simpa using hne
+          omega
+    · simp only [hp, if_false]
+
 /-! ### build -/
 
 omit hT in
